@@ -40,6 +40,7 @@ FaultModes == <<"fail-empty", "fail-generic", "fail-notrepo", "fail-nohead", "fa
 
 \* ----------------------------------------------------------- argument classes --
 ValueClasses == <<"valid", "empty", "non-ascii", "long", "minus-one", "two-pow-32", "two-pow-64", "word", "bad-ron",
-                  "bad-json", "bad-template", "template-bad-strftime", "template-hostile-call", "nul", "leading-dash">>
+                  "bad-json", "bad-template", "template-bad-strftime", "template-hostile-call", "nul", "leading-dash",
+                  "valid-upper", "valid-capitalised", "valid-padded">>   \* a valid value of THIS option in another spelling
 StdinClasses == <<"none", "empty", "valid-ron", "truncated-ron", "binary", "plain-version", "huge-numbers">>
 =============================================================================
